@@ -701,6 +701,14 @@ func (co *ClipperOffset) doSquare(path Path64, j, k int) {
 }
 
 func intersectPoint(pt1a, pt1b, pt2a, pt2b PointD) PointD {
+	// work relative to pt1a: with absolute coordinates the intercepts b = y - m*x lose every
+	// digit of the answer once the coordinates are large (a square join far from the origin)
+	ox, oy := pt1a.X, pt1a.Y
+	pt1b = PointD{X: pt1b.X - ox, Y: pt1b.Y - oy}
+	pt2a = PointD{X: pt2a.X - ox, Y: pt2a.Y - oy}
+	pt2b = PointD{X: pt2b.X - ox, Y: pt2b.Y - oy}
+	pt1a = PointD{}
+
 	if isAlmostZero(pt1a.X - pt1b.X) {
 		if isAlmostZero(pt2a.X - pt2b.X) {
 
@@ -708,13 +716,13 @@ func intersectPoint(pt1a, pt1b, pt2a, pt2b PointD) PointD {
 		}
 		m2 := (pt2b.Y - pt2a.Y) / (pt2b.X - pt2a.X)
 		b2 := pt2a.Y - m2*pt2a.X
-		return PointD{X: pt1a.X, Y: m2*pt1a.X + b2}
+		return PointD{X: pt1a.X + ox, Y: m2*pt1a.X + b2 + oy}
 	}
 
 	if isAlmostZero(pt2a.X - pt2b.X) {
 		m1 := (pt1b.Y - pt1a.Y) / (pt1b.X - pt1a.X)
 		b1 := pt1a.Y - m1*pt1a.X
-		return PointD{X: pt2a.X, Y: m1*pt2a.X + b1}
+		return PointD{X: pt2a.X + ox, Y: m1*pt2a.X + b1 + oy}
 	}
 
 	m1 := (pt1b.Y - pt1a.Y) / (pt1b.X - pt1a.X)
@@ -729,7 +737,7 @@ func intersectPoint(pt1a, pt1b, pt2a, pt2b PointD) PointD {
 
 	x := (b2 - b1) / (m1 - m2)
 	y := m1*x + b1
-	return PointD{X: x, Y: y}
+	return PointD{X: x + ox, Y: y + oy}
 }
 
 func almostZero(value float64) bool {
